@@ -1,94 +1,237 @@
 package main
 
-// Rules of C16 added after the rounds of independently authored breaking changes (DESIGN 11.6, 11.7).
+// Rules of C16 added after the rounds of independently authored breaking changes (DESIGN 11.6, 11.7): P4, G2, H1.
 
 import (
 	"go/token"
-	"strings"
 
 	"golang.org/x/tools/go/ssa"
 )
 
+// c16unchanged: v is the value src itself on every path that runs after instruction from: src, the error component of
+// src, a merge whose edges coming from code after `from` are all src, or a local cell that only src is stored into
+// afterwards (and that no closure rewrites).
+func c16unchanged(v, src ssa.Value, from ssa.Instruction, depth int) bool {
+	if v == src {
+		return true
+	}
+	if depth > 4 {
+		return false
+	}
+	after := func(b *ssa.BasicBlock) bool {
+		return b == from.Block() || reachableFrom([]*ssa.BasicBlock{from.Block()}, nil)[b]
+	}
+	switch x := v.(type) {
+	case *ssa.Extract:
+		return x.Tuple == src && c16isErrT(x.Type())
+	case *ssa.ChangeInterface:
+		return c16unchanged(x.X, src, from, depth+1)
+	case *ssa.Phi:
+		n := 0
+		for k, e := range x.Edges {
+			if !after(x.Block().Preds[k]) {
+				continue
+			}
+			n++
+			if !c16unchanged(e, src, from, depth+1) {
+				return false
+			}
+		}
+		return n > 0
+	case *ssa.UnOp:
+		a, ok := x.X.(*ssa.Alloc)
+		if x.Op != token.MUL || !ok {
+			return false
+		}
+		n := 0
+		for _, r := range *a.Referrers() {
+			switch y := r.(type) {
+			case *ssa.Store:
+				if y.Addr != a || !canReach(from, y) {
+					continue
+				}
+				if ld, isLd := y.Val.(*ssa.UnOp); isLd && ld.Op == token.MUL && ld.X == a {
+					continue // *a = *a (the epilogue of a function with defers re-stores its named results)
+				}
+				n++
+				if !c16unchanged(y.Val, src, from, depth+1) {
+					return false
+				}
+			case *ssa.MakeClosure:
+				// a closure that captures the cell and writes to it may rewrite the error (deferred wrapper)
+				fn, _ := y.Fn.(*ssa.Function)
+				for k, b := range y.Bindings {
+					if b != a || fn == nil || k >= len(fn.FreeVars) {
+						continue
+					}
+					for _, fr := range *fn.FreeVars[k].Referrers() {
+						if st, ok := fr.(*ssa.Store); ok && st.Addr == fn.FreeVars[k] {
+							return false
+						}
+					}
+				}
+			}
+		}
+		return n > 0
+	}
+	return false
+}
+
 func runC16Extra(c *Ctx) {
-	keyFn := c.fn("proxy", "makeGRPCTargetKey")
-	if keyFn != nil {
-		ok := false
-		eachInstr(keyFn, func(i ssa.Instruction) {
+	// P4: what a pool key function returns
+	runC16P4(c)
+
+	// G2: the handler's error travels unchanged from the call of the wrapped handler to the interceptor's caller
+	R := c16resolve(c)
+	if R.stream == nil {
+		return
+	}
+	var follow func(f *ssa.Function, src ssa.Value, from ssa.Instruction, depth int) (bool, token.Pos)
+	follow = func(f *ssa.Function, src ssa.Value, from ssa.Instruction, depth int) (bool, token.Pos) {
+		ok, pos := true, from.Pos()
+		eachInstr(f, func(j ssa.Instruction) {
+			r, isR := j.(*ssa.Return)
+			if !isR || !ok || !pathAvoiding(from, j, nil) {
+				return
+			}
+			found := false
+			for _, res := range r.Results {
+				if c16isErrT(res.Type()) {
+					found = true
+					if !c16unchanged(res, src, from, 0) {
+						ok, pos = false, r.Pos()
+					}
+				}
+			}
+			if !found {
+				ok, pos = false, r.Pos() // the status is dropped
+			}
+		})
+		if !ok || f == R.stream || depth >= 3 {
+			return ok, pos
+		}
+		// the call sits in a helper of the interceptor: follow its result at the call sites in the region
+		for _, s := range gSites[f] {
+			if !c16inFns(R.sreg, s.Parent()) || s.Parent() == f {
+				continue
+			}
+			call, isCall := s.(*ssa.Call)
+			if !isCall {
+				return false, s.Pos() // go / defer: the status is lost
+			}
+			if ok2, pos2 := follow(s.Parent(), call, call, depth+1); !ok2 {
+				return false, pos2
+			}
+		}
+		// a closure handed to a wrapper (timing, retry, recover): follow the wrapper's call of its parameter
+		if f.Parent() != nil {
+			eachInstr(f.Parent(), func(i ssa.Instruction) {
+				mc, isMC := i.(*ssa.MakeClosure)
+				if !isMC || mc.Fn != f || !ok {
+					return
+				}
+				for _, r := range *mc.Referrers() {
+					ci, isCI := r.(ssa.CallInstruction)
+					if !isCI || ci.Common().Value == mc {
+						continue
+					}
+					g := ci.Common().StaticCallee()
+					if g == nil || !isRepoFn(g) || len(g.Blocks) == 0 {
+						continue
+					}
+					for k, a := range ci.Common().Args {
+						if a != mc || k >= len(g.Params) {
+							continue
+						}
+						eachInstr(g, func(j ssa.Instruction) {
+							dc, isC := j.(*ssa.Call)
+							if !isC || dc.Call.Value != g.Params[k] || !ok {
+								return
+							}
+							if ok2, pos2 := follow(g, dc, dc, depth+1); !ok2 {
+								ok, pos = false, pos2
+							}
+						})
+					}
+				}
+			})
+		}
+		return ok, pos
+	}
+	for _, call := range R.handlers {
+		ok, pos := follow(call.Parent(), call, call, 0)
+		c.check("C16.G2", "proxy.GrpcProxyInterceptor.Stream|backend status returned unchanged", pos, ok,
+			"whatever the transparent handler returns is the backend's final status; the interceptor must return that error value as is on every path after the call — rewriting it (e.g. mapping codes.Unknown to Internal) changes the status code and message the caller receives")
+	}
+}
+
+// ---- C16.P4: the pool key is the whole target URL -------------------------------------------------------------------------
+
+func runC16P4(c *Ctx) {
+	keys := c16poolKeys(c)
+	if len(keys.keyFns) == 0 {
+		// no key function: P1 has accepted only keys spelled target.URL.String() (or range keys) at the accesses themselves
+		return
+	}
+	done := map[*ssa.Function]bool{}
+	var judge func(f *ssa.Function, depth int) bool
+	judge = func(f *ssa.Function, depth int) bool {
+		ok, n := true, 0
+		eachInstr(f, func(i ssa.Instruction) {
 			r, isR := i.(*ssa.Return)
 			if !isR || len(r.Results) != 1 {
 				return
 			}
-			if call, isC := r.Results[0].(*ssa.Call); isC && calleeName(&call.Call) == "(*net/url.URL).String" {
-				if _, isURL := fieldOf(call.Call.Args[0], "route.Target", "URL"); isURL {
-					ok = true
+			n++
+			if !c16allDefs(r.Results[0], func(x ssa.Value) bool {
+				if c16wholeURL(x) {
+					return true
 				}
+				if g := c16keyFnCall(x); g != nil && g != f && depth < 3 {
+					return judge(g, depth+1)
+				}
+				return false
+			}) {
+				ok = false
 			}
 		})
-		c.check("C16.P4", "proxy.makeGRPCTargetKey|pool key is the whole target URL", keyFn.Pos(), ok,
+		return ok && n > 0
+	}
+	for _, f := range c.AllFns { // deterministic order
+		if !keys.keyFns[f] || done[f] {
+			continue
+		}
+		done[f] = true
+		c.check("C16.P4", "proxy.makeGRPCTargetKey|pool key is the whole target URL", f.Pos(), judge(f, 0),
 			"connections are pooled per backend: the key must be the target's full URL (Target.URL.String(): scheme + host). A key without the scheme lets grpc://a:1 and grpcs://a:1 share one connection — after a backend switches to TLS on the same address every call goes over the stale plaintext connection, and cleanup never drops it because the host is still in the table")
 	}
-	stream := c.method("proxy", "GrpcProxyInterceptor", "Stream")
-	if stream == nil {
-		return
-	}
-	var handlerParam *ssa.Parameter
-	for _, p := range stream.Params {
-		if typeStr(p.Type()) == "google.golang.org/grpc.StreamHandler" {
-			handlerParam = p
-		}
-	}
-	eachInstr(stream, func(i ssa.Instruction) {
-		call, ok := i.(*ssa.Call)
-		if !ok || call.Call.Value != handlerParam {
-			return
-		}
-		// every return reachable after the handler call returns the handler's error unchanged
-		ok2 := true
-		var pos token.Pos = call.Pos()
-		eachInstr(stream, func(j ssa.Instruction) {
-			r, isR := j.(*ssa.Return)
-			if !isR || !pathAvoiding(call, j, nil) {
-				return
-			}
-			if r.Results[0] != call {
-				ok2 = false
-				pos = r.Pos()
-			}
-		})
-		c.check("C16.G2", "proxy.GrpcProxyInterceptor.Stream|backend status returned unchanged", pos, ok2,
-			"whatever the transparent handler returns is the backend's final status; the interceptor must return that error value as is on every path after the call — rewriting it (e.g. mapping codes.Unknown to Internal) changes the status code and message the caller receives")
-	})
 }
 
-// ---- C17.T3: the pooled writer is put back at most once ------------------------------------------------------------------
+// ---- C16.H1: the routing host comes from the dsthost metadata only --------------------------------------------------------
 
 func runC16H1(c *Ctx) {
-	f := c.method("proxy", "GrpcProxyInterceptor", "getDestinationHostFromMetadata")
-	if !c.need("C16.H1", f, "proxy.GrpcProxyInterceptor.getDestinationHostFromMetadata") {
+	R := c16resolve(c)
+	if R.stream == nil || len(R.lookups) == 0 {
+		c.undecided("C16.H1", "anchor|proxy.GrpcProxyInterceptor.getDestinationHostFromMetadata", "the interceptor's route lookup does not resolve, so the host it routes by cannot be examined")
 		return
 	}
 	n := 0
-	eachInstr(f, func(i ssa.Instruction) {
-		lk, ok := i.(*ssa.Lookup)
-		if !ok || !namedIs(lk.X.Type(), "metadata.MD") {
-			return
+	seen := map[ssa.Instruction]bool{}
+	for _, call := range R.lookups {
+		for _, alloc := range c16allocsOf(call.Call.Args[1], "http.Request") {
+			for _, st := range fieldStores(alloc)["Host"] {
+				reads, _ := c16mdReads(st.Val)
+				for _, r := range reads {
+					if seen[r.at] {
+						continue
+					}
+					seen[r.at] = true
+					n++
+					c.check("C16.H1", "(proxy.GrpcProxyInterceptor).getDestinationHostFromMetadata|metadata key "+r.key, r.pos, r.known && r.key == "dsthost",
+						"the routing host of a call is the dsthost metadata value, if any; reading another key (\":authority\" is set by every client to whatever name it dialled) routes calls without dsthost to host-specific routes — the wrong backend answers, and a call that must be NotFound is served")
+				}
+			}
 		}
-		n++
-		k, isK := constString(lk.Index)
-		c.check("C16.H1", "(proxy.GrpcProxyInterceptor).getDestinationHostFromMetadata|metadata key "+k, i.Pos(), isK && k == "dsthost",
-			"the routing host of a call is the dsthost metadata value, if any; reading another key (\":authority\" is set by every client to whatever name it dialled) routes calls without dsthost to host-specific routes — the wrong backend answers, and a call that must be NotFound is served")
-	})
-	// calls of MD.Get count as lookups too
-	eachInstr(f, func(i ssa.Instruction) {
-		cc := callCommon(i)
-		if cc == nil || !strings.HasSuffix(calleeName(cc), "metadata.MD).Get") {
-			return
-		}
-		n++
-		k, isK := constString(cc.Args[len(cc.Args)-1])
-		c.check("C16.H1", "(proxy.GrpcProxyInterceptor).getDestinationHostFromMetadata|metadata key "+k, i.Pos(), isK && k == "dsthost", "the routing host of a call is the dsthost metadata value, if any")
-	})
-	c.atLeast("C16.H1", "metadata lookups in getDestinationHostFromMetadata", n, 1)
+	}
+	c.atLeast("C16.H1", "metadata reads that feed the routing host", n, 1)
 }
-
-// ---- C18.R1 / C18.X1 -------------------------------------------------------------------------------------------
